@@ -267,7 +267,7 @@ theorem potential_spec (parts : List (Topic × List Nat)) (m : MemberIn) (p : TP
     rw [hg] at hp
     obtain ⟨n, hn, he⟩ := List.mem_map.mp hp
     subst he
-    refine ⟨ht, ?_⟩
+    refine ⟨(mem_isort_iff _ _).mp ht, ?_⟩
     unfold allTpsOf
     exact List.mem_flatMap.mpr ⟨(t, ps), alGet_mem _ _ _ hg, List.mem_map.mpr ⟨n, hn, rfl⟩⟩
 
@@ -282,7 +282,7 @@ theorem populateSorted_more (s : St) :
   split <;> exact ⟨rfl, rfl, rfl⟩
 
 theorem initState_p2c (parts : List (Topic × List Nat)) (members : List MemberIn) (oracle : List TP) :
-    (initState parts members oracle).p2c = (allTpsOf parts).map
+    (initState parts members oracle).p2c = (subscribedTps parts members).map
       (fun tp => (tp, (members.filter (fun m => (potentialOf parts m).contains tp)).map (·.id))) := rfl
 
 theorem alGet_map_key {α β : Type} [BEq α] [LawfulBEq α] (l : List α) (g : α → β) (k : α) (v : β)
@@ -317,7 +317,7 @@ theorem assign_keeps_identical (fuel : Nat) (parts : List (Topic × List Nat)) (
     rw [← hs]
     show (populateSortedPartitions (initState parts members oracle)).c2p = _
     rw [hf.2.2.1, initState_c2p]
-  have hp2c : s.p2c = (allTpsOf parts).map
+  have hp2c : s.p2c = (subscribedTps parts members).map
       (fun tp => (tp, (members.filter (fun m => (potentialOf parts m).contains tp)).map (·.id))) := by
     rw [← hs]
     show (populateSortedPartitions (initState parts members oracle)).p2c = _
@@ -362,7 +362,10 @@ theorem assign_keeps_identical (fuel : Nat) (parts : List (Topic × List Nat)) (
       have hmem : (initState parts members oracle).members = members := rfl
       rw [hmem, find_member members G.ids m hm]
       simp only [Option.map_some, Option.getD_some, Bool.and_eq_true]
-      exact ⟨alHas_map_key _ _ _ h2, by simpa using h1⟩
+      have h2' : p ∈ subscribedTps parts members := by
+        unfold subscribedTps
+        exact List.mem_filter.mpr ⟨h2, List.any_eq_true.mpr ⟨m, hm, by simpa using h1⟩⟩
+      exact ⟨alHas_map_key _ _ _ h2', by simpa using h1⟩
   have hlen : ∀ m ∈ members, (curOf s m.id).length = m.prev.length := by
     intro m hm
     rw [hkeep m hm]
@@ -391,7 +394,7 @@ theorem assign_keeps_identical (fuel : Nat) (parts : List (Topic × List Nat)) (
       -- some member is a candidate for `p`, hence (identical subscriptions) every member is
       unfold consumersOf at hcons
       rw [alGetD_def, hp2c] at hcons
-      cases hg : alGet ((allTpsOf parts).map
+      cases hg : alGet ((subscribedTps parts members).map
           (fun tp => (tp, (members.filter (fun m => (potentialOf parts m).contains tp)).map (·.id)))) p with
       | none => rw [hg] at hcons; simp at hcons
       | some v =>
